@@ -1,6 +1,6 @@
 // ------------------------------------------------------------------ contracts.rs : lifting sub-messages of Empty-typed contracts (C17)
-// kind by kind, payload intact; a Custom(Empty) message has no image (excluded by precondition: an Empty-typed
-// contract has no custom messages; the code has unreachable!() there)
+// kind by kind, payload intact; a Custom(Empty) message has no image in CosmosMsg<C> (the code has unreachable!() there:
+// a contract built with new_with_empty that emits CosmosMsg::Custom(Empty {}) panics -- known finding, DESIGN §6)
 pub open spec fn lift_msg<C>(m: CosmosMsg<Empty>) -> CosmosMsg<C> {
     match m {
         CosmosMsg::Wasm(x) => CosmosMsg::Wasm(x),
@@ -16,7 +16,6 @@ pub open spec fn lift_msg<C>(m: CosmosMsg<Empty>) -> CosmosMsg<C> {
 }
 //@ fn src/contracts.rs :: customize_msg
 //@   ret r
-//@   requires [C17.lift.pre] !(msg.msg is Custom)
 //@   ensures [C17.lift.kind] r.msg == lift_msg::<C>(msg.msg)
 //@   ensures [C17.lift.frame] r.id == msg.id && r.payload == msg.payload && r.gas_limit == msg.gas_limit && r.reply_on == msg.reply_on
 //@   replace_re? "where\\s*C: CustomMsg,\\s*" => ""
@@ -45,8 +44,7 @@ pub open spec fn lift_sub<C>(m: SubMsg<Empty>) -> SubMsg<C> {
 //@ fn src/contracts.rs :: customize_response
 //@   ret r
 //@   replace_re? "where\\s*C: CustomMsg,\\s*" => ""
-//@   replace_re "resp\\.messages\\.into_iter\\(\\)\\.map\\(customize_msg::<C>\\)" => "iter_map(resp.messages.into_iter(), |vx_m: SubMsg<Empty>| -> (o: SubMsg<C>) requires !(vx_m.msg is Custom) ensures o == lift_sub::<C>(vx_m) { customize_msg::<C>(vx_m) })"
-//@   requires [C17.lift_resp.pre] forall|i: int| 0 <= i < resp.messages@.len() ==> !((#[trigger] resp.messages@[i]).msg is Custom)
+//@   replace_re "resp\\.messages\\.into_iter\\(\\)\\.map\\(customize_msg::<C>\\)" => "iter_map(resp.messages.into_iter(), |vx_m: SubMsg<Empty>| -> (o: SubMsg<C>) ensures o == lift_sub::<C>(vx_m) { customize_msg::<C>(vx_m) })"
 //@   ensures [C17.lift_resp.messages,C04] r.messages@.len() == resp.messages@.len() && forall|i: int| 0 <= i < resp.messages@.len() ==> #[trigger] r.messages@[i] == lift_sub::<C>(resp.messages@[i])
 //@   ensures [C17.lift_resp.rest,C04] r.events@ == resp.events@ && r.attributes@ == resp.attributes@ && r.data == resp.data
 //@ end
@@ -91,7 +89,6 @@ pub open spec fn perm_lifted<T, C, E, Q, F: Fn(DepsMut<Empty>, Env, T) -> Result
 }
 pub open spec fn perm_ready<T, E, Q, F: Fn(DepsMut<Empty>, Env, T) -> Result<Response<Empty>, E>>(raw_fn: F, d: DepsMut<Q>, env: Env, msg: T) -> bool {
     &&& forall|d0: DepsMut<Empty>| d0.storage.view() == d.storage.view() && d0.querier.snap() == d.querier.snap() ==> #[trigger] raw_fn.requires((d0, env, msg))
-    &&& forall|d0: DepsMut<Empty>, o0: Result<Response<Empty>, E>| #[trigger] raw_fn.ensures((d0, env, msg), o0) && o0 is Ok ==> no_custom(o0->Ok_0)
 }
 //@ fn src/contracts.rs :: customize_permissioned_fn
 //@   ret r
@@ -108,7 +105,6 @@ pub open spec fn contract_lifted<T, C, E, Q, F: Fn(DepsMut<Empty>, Env, MessageI
 }
 pub open spec fn contract_ready<T, E, Q, F: Fn(DepsMut<Empty>, Env, MessageInfo, T) -> Result<Response<Empty>, E>>(raw_fn: F, d: DepsMut<Q>, env: Env, info: MessageInfo, msg: T) -> bool {
     &&& forall|d0: DepsMut<Empty>| d0.storage.view() == d.storage.view() && d0.querier.snap() == d.querier.snap() ==> #[trigger] raw_fn.requires((d0, env, info, msg))
-    &&& forall|d0: DepsMut<Empty>, o0: Result<Response<Empty>, E>| #[trigger] raw_fn.ensures((d0, env, info, msg), o0) && o0 is Ok ==> no_custom(o0->Ok_0)
 }
 //@ fn src/contracts.rs :: customize_contract_fn
 //@   ret r
